@@ -16,6 +16,9 @@ C['C17']=("Static analysis: the parser's syntax-error barrier dominates the tree
 C['C20']=("Static analysis: release of an accepted reload on every CFG path of the worker loop and the main loop's reloading branch, suppression begin/end balance and who-may-call, effect-freedom of the refusal edge, reviewed writer set of the three admission flags, retirement hand-shake shape, and an always-armed timeout on the retirement drain wait.",
  "Trusted: go/types, go/cfg; reviewed writer table in internal/props/c20.go. Not decided: interleavings of signals with the worker's stages, progress-file races.",
  TECH+" (loop back-edge must-pass-through, who-may-call, effect enumeration on an edge, definition-dominates-select)")
+C['C01']=("Static analysis: the decision table of the userspace matcher's scan loop is extracted by exhaustive constant propagation over its CFG (224 abstract inputs) and compared cell by cell with the first-match reference; the sentinel algebra, the OR/AND/outbound naming of lowered match sets (Apply and every emitter), agreement of the kernel and userspace representation at every appendRule site, exhaustiveness of registered functions and match-type cases, and the MAC/domain/process-name/fallback facets are decided from the typed AST.",
+ "Trusted: go/types, go/cfg, go/constant folding in internal/fdt, the reference transition in internal/props/scan.go. Not decided: per-type predicates on concrete values, domain matcher (C11), port/MAC string parsing, end-to-end decisions.",
+ "static analysis: finite decision table by constant-propagation dataflow over go/cfg (no execution, no solver) + typed-AST sibling/representation agreement + exhaustiveness")
 def chk(pid):
     text,note,tech=C[pid]
     return {"property_id":pid,"quick_cmd":f"bin/daecheck -p {pid} -tier quick","thorough_cmd":f"bin/daecheck -p {pid} -tier thorough","evidence_file":f"/verif/evidence/{pid}.json",
